@@ -61,9 +61,10 @@ INSTANCES = [
     _seq('seq_cap2_sym_base', 2, 0, 4, 5, base=1, tiers=('thorough',)),
     # the classic last-element race: owner push, push, pop, pop  vs.  stealer steal, steal
     _conc('conc_cap2_s1_race', 2, 1, PPpp, 0, 3, ('quick', 'thorough'), tsteps=4),
-    _conc('conc_cap2_s1_sym', 2, 1, 'sym4', 0, 3, ('thorough',)),
+    _conc('conc_cap2_s1_sym', 2, 1, 'sym4', 0, 4, ('thorough',)),
     _conc('conc_cap2_s1_into_sym', 2, 1, 'sym4', 1, 3, ('thorough',)),
-    _conc('conc_cap2_s2_race', 2, 2, PPpp, 0, 3, ('thorough',)),
+    _conc('conc_cap2_s2_race', 2, 2, PPpp, 0, 4, ('thorough',)),
+    _conc('conc_cap2_s2_sym', 2, 2, 'sym3', 0, 3, ('thorough',)),
     _conc('conc_cap4_s2_into', 4, 2, (0, 0, 9, 1), 1, 3, ('thorough',)),
     _conc('conc_cap1_s2', 1, 2, 'sym3', 0, 3, ('thorough',)),
     _conc('conc_cap2_s1_ownersteal', 2, 1, (0, 0, 2, 1), 0, 3, ('thorough',), osteal=1),
